@@ -9,8 +9,10 @@
 (* a stack-neutral *unit* (one or two instructions), so every tree that    *)
 (* can be built is well typed; units may be inserted at any instruction    *)
 (* position (units nest like parentheses).                                 *)
-(* Function type (i32) -> ();  locals: 0 = parameter (i32), 1 = i32,       *)
-(* 2 = i64.                                                                *)
+(* Function type (i32, i32) -> ();  locals: 0, 1 = the parameters, 2 = i32,*)
+(* 3 = i64.  (The real function's locals are allocated in another order    *)
+(* than this, parameters last and reversed: slot assignment must not       *)
+(* depend on allocation order.)                                            *)
 (***************************************************************************)
 EXTENDS Naturals, Integers, Sequences, FiniteSets, TLC, Json
 
@@ -35,9 +37,10 @@ Positions(sq) == 0..Len(seqs[sq + 1])
 
 \* ---- build operations (each also records itself in `hist` for replay on the real FunctionBuilder) -------
 Unit(sq, pos, kind, v) ==
-  LET nodes == CASE kind = "set32" -> <<Node("const32", v, -1), Node("lset", 1, -1)>>
-                 [] kind = "set64" -> <<Node("const64", v, -1), Node("lset", 2, -1)>>
+  LET nodes == CASE kind = "set32" -> <<Node("const32", v, -1), Node("lset", 2, -1)>>
+                 [] kind = "set64" -> <<Node("const64", v, -1), Node("lset", 3, -1)>>
                  [] kind = "getp"  -> <<Node("lget", 0, -1), Node("drop", -1, -1)>>
+                 [] kind = "getq"  -> <<Node("lget", 1, -1), Node("drop", -1, -1)>>
   IN /\ seqs' = Ins(sq, pos, nodes) /\ UNCHANGED attached
      /\ hist' = Append(hist, [op |-> "unit", seq |-> sq, pos |-> pos, kind |-> kind, v |-> v, d |-> -1])
 
@@ -133,7 +136,7 @@ FlatSeq(sq, stack, closer) == FlatFrom(sq, 1, stack) \o <<Op(closer, "", -1, <<>
 Flatten == FlatSeq(0, <<0>>, "End")
 
 \* the local types of the built function, in abstract numbering
-AbsLocals == <<"i32", "i32", "i64">>
+AbsLocals == <<"i32", "i32", "i32", "i64">>
 
 \* ---- design-level sanity: the tree is a tree, flattening is balanced and branch depths are in range -----
 TreeShaped == \A sq \in SeqIds : Cardinality({p \in SeqIds : sq \in Children(p)}) <= 1
